@@ -2,7 +2,7 @@
 import sys, os, json, time, subprocess, glob, fnmatch, re, hashlib
 
 VERIF = os.path.dirname(os.path.dirname(os.path.abspath(__file__)))
-REPO = "/repo"
+REPO = os.environ.get("VERIF_REPO", "/repo")
 TARGET = os.path.join(VERIF, "target")
 EVID = os.path.join(VERIF, "evidence")
 REPLAYS = os.path.join(EVID, "replays")
